@@ -138,25 +138,79 @@ Proof.
     apply (rgb_word_scaled_ok fmt kr kg kb); assumption.
 Qed.
 
-(* ------------------------------------------------------------------ the library (tree) *)
-(* rfbMakeRichCursorFromXCursor shifts the UNSCALED 16-bit component: `(uint32_t)foreRed << redShift`.
-   32 bpp, 8/8/8, shifts 0/8/16, foreground (32768, 0, 0) = half-intensity red: the pixel is 0x8000,
+(* ------------------------------------------------------------------ the library (tree, since the fix of F15e) *)
+Lemma u32_small : forall v, 0 <= v < two32 -> u32 v = v.
+Proof. intros. unfold u32. apply Z.mod_small. assumption. Qed.
+
+Lemma shifted_small : forall v k s, 0 <= k -> 0 <= s -> s + k <= 32 -> 0 <= v < 2 ^ k -> 0 <= Z.shiftl v s < two32.
+Proof.
+  intros v k s Hk Hs Hin Hv. rewrite Z.shiftl_mul_pow2 by lia.
+  assert (0 < 2 ^ s) by (apply Z.pow_pos_nonneg; lia).
+  assert (2 ^ k * 2 ^ s <= two32).
+  { rewrite <- Z.pow_add_r by lia. change two32 with (2 ^ 32). apply Z.pow_le_mono_r; lia. }
+  nia.
+Qed.
+
+Lemma rgb_word_is_scaled : forall fmt kr kg kb c3,
+  fmt_ok fmt kr kg kb -> bpp fmt <= 4 -> kr <= 16 -> kg <= 16 -> kb <= 16 ->
+  (let '(r, g, b) := c3 in 0 <= r <= 65535 /\ 0 <= g <= 65535 /\ 0 <= b <= 65535) ->
+  rgb_word fmt c3 = rgb_word_scaled fmt c3.
+Proof.
+  intros fmt kr kg kb [[r g] b] F B Kr Kg Kb (Hr & Hg & Hb). destruct F.
+  pose proof (chan_range kr r ok_kr0 Hr) as Cr. pose proof (chan_range kg g ok_kg0 Hg) as Cg.
+  pose proof (chan_range kb b ok_kb0 Hb) as Cb.
+  assert (P : forall k, 0 <= k <= 16 -> 0 < 2 ^ k <= 65536).
+  { intros k Hk. split; [apply Z.pow_pos_nonneg; lia|]. change 65536 with (2 ^ 16). apply Z.pow_le_mono_r; lia. }
+  pose proof (P kr (conj ok_kr0 Kr)). pose proof (P kg (conj ok_kg0 Kg)). pose proof (P kb (conj ok_kb0 Kb)).
+  unfold rgb_word, rgb_word_scaled. rewrite ok_rmax0, ok_gmax0, ok_bmax0 in *. unfold chan in *.
+  rewrite (u32_small ((2 ^ kr - 1) * r)) by (unfold two32; nia).
+  rewrite (u32_small ((2 ^ kg - 1) * g)) by (unfold two32; nia).
+  rewrite (u32_small ((2 ^ kb - 1) * b)) by (unfold two32; nia).
+  rewrite !u32_small; [reflexivity| | |].
+  - apply (shifted_small _ kb); lia.
+  - apply (shifted_small _ kg); lia.
+  - apply (shifted_small _ kr); lia.
+Qed.
+
+(* rfbMakeRichCursorFromXCursor gives the colours the cursor asks for, every true-colour format *)
+Theorem rich_from_x_colour : forall fmt kr kg kb c r,
+  fmt_ok fmt kr kg kb -> bpp fmt <= 4 -> kr <= 16 -> kg <= 16 -> kb <= 16 -> 0 <= cw c -> 0 <= ch c ->
+  (let '(r, g, b) := cfore c in 0 <= r <= 65535 /\ 0 <= g <= 65535 /\ 0 <= b <= 65535) ->
+  (let '(r, g, b) := cback c in 0 <= r <= 65535 /\ 0 <= g <= 65535 /\ 0 <= b <= 65535) ->
+  make_rich_from_x fmt c = Some r -> rich_from_x_ok fmt c r.
+Proof.
+  intros fmt kr kg kb c r F B Kr Kg Kb Hw Hh Rf Rb H.
+  apply (rich_from_x_colour_if fmt kr kg kb c r); auto.
+  - rewrite (rgb_word_is_scaled fmt kr kg kb); auto.
+  - rewrite (rgb_word_is_scaled fmt kr kg kb); auto.
+Qed.
+
+(* record of F15e - before the fix the UNSCALED 16-bit component was shifted: `(uint32_t)foreRed << redShift`.
+   32 bpp, 8/8/8, shifts 0/8/16, foreground (32768, 0, 0) = half-intensity red: the pixel was 0x8000,
    i.e. red channel 0 and green channel 128 - a dark green - instead of red 127. *)
+Definition rgb_word_unscaled (fmt : pixfmt) (c3 : Z * Z * Z) : Z :=
+  let '(r, g, b) := c3 in
+  Z.lor (Z.lor (u32 (Z.shiftl r (rshift fmt))) (u32 (Z.shiftl g (gshift fmt)))) (u32 (Z.shiftl b (bshift fmt))).
+
 Definition col_cur : cursor :=
   mkcur 1 1 0 0 (Some [128]) [128] None None false (32768, 0, 0) (0, 0, 0) false.
 
-Theorem rich_from_x_colour_refuted :
-  exists r, make_rich_from_x fmt32 col_cur = Some r /\ r = [32768] /\
-            red_of fmt32 32768 = 0 /\ green_of fmt32 32768 = 128 /\ chan 255 32768 = 127 /\
-            ~ rich_from_x_ok fmt32 col_cur r.
+Theorem rich_from_x_colour_old_refuted :
+  pixmod fmt32 (rgb_word_unscaled fmt32 (cfore col_cur)) = 32768 /\
+  red_of fmt32 32768 = 0 /\ green_of fmt32 32768 = 128 /\ chan 255 32768 = 127 /\
+  ~ colour_ok fmt32 (cfore col_cur) (pixmod fmt32 (rgb_word_unscaled fmt32 (cfore col_cur))).
 Proof.
-  exists [32768]. split; [vm_compute; reflexivity|]. split; [reflexivity|].
-  split; [vm_compute; reflexivity|]. split; [vm_compute; reflexivity|]. split; [vm_compute; reflexivity|].
-  intros [_ H]. destruct (H 0 0) as (byte & p & Eb & Ep & Ok); [cbn; lia|cbn; lia|].
-  vm_compute in Eb. inversion Eb; subst byte. vm_compute in Ep. inversion Ep; subst p.
-  vm_compute in Ok. destruct Ok as [R _]. discriminate R.
+  repeat split; try (vm_compute; reflexivity). vm_compute. intros [R _]. discriminate R.
 Qed.
 
 Example fmt32_ok : fmt_ok fmt32 8 8 8.
 Proof. constructor; unfold apart; vm_compute; try (intro; discriminate); try reflexivity; auto; try lia.
   all: try (left; intro; discriminate). Qed.
+
+Example rich_from_x_colour_nonvacuous :
+  make_rich_from_x fmt32 col_cur = Some [127] /\ rich_from_x_ok fmt32 col_cur [127].
+Proof.
+  split; [vm_compute; reflexivity|].
+  apply (rich_from_x_colour fmt32 8 8 8); [exact fmt32_ok| ..];
+    try (vm_compute; intuition discriminate); try (cbn; lia).
+Qed.
